@@ -13,7 +13,7 @@ theorem single_cases {α : Type} (G : List α) (h : α) (i : Nat) (n : α) (hn :
   · cases h1.2.1
 
 section
-variable {c : Bool} {inst : Instance} {dom : List Nat}
+variable {c : Bool} {inst : Instance} {dom : List Nat} {fx : Bool}
 variable {s0 st s1 : St} {g : Nat} {old cur : V} {m : Min} {new : List Node}
 
 /-- everything but stack and graph is kept -/
@@ -27,9 +27,9 @@ theorem Rest.inCache {s1 s2 : St} (R : Rest s1 s2) {k : Nat} {v : V} : InCache s
   unfold InCache
   rw [R.cache]
 
-theorem After.restart (A : After c inst dom s0 st s1 g old cur m new) {s2 : St} (R : Rest s1 s2)
+theorem After.restart (A : After c inst dom fx s0 st s1 g old cur m new) {s2 : St} (R : Rest s1 s2)
     (hst2 : s2.stack = setCycle false s0.stack.length s1.stack)
-    (hg2 : s2.graph = s0.graph ++ [headNode s0 g cur]) : LoopSt c inst dom s0 g s2 := by
+    (hg2 : s2.graph = s0.graph ++ [headNode s0 g cur]) : LoopSt c inst dom fx s0 g s2 := by
   have hlen2 : s2.stack.length = s0.stack.length + 1 := by rw [hst2, setCycle_length, A.slen]
   have hsext : ∀ (i : Nat) (e : StackEntry), s0.stack[i]? = some e → ∃ e' : StackEntry, s2.stack[i]? = some e' ∧
       e'.coinductiveGoal = e.coinductiveGoal ∧ (e.cycle = true → e'.cycle = true) := by
@@ -53,9 +53,18 @@ theorem After.restart (A : After c inst dom s0 st s1 g old cur m new) {s2 : St} 
     cases hnode hn with
     | inl h => exact ⟨n, A.g0 h.2, rfl⟩
     | inr h => exact ⟨_, by rw [h.1]; exact A.head, by rw [h.2]; rfl⟩
-  have hinv : Inv c inst dom s2 := by
-    refine ⟨?_, ?_, ?_, ?_, ?_, ?_, ?_, ?_, ?_, ?_, ?_, ?_⟩
-    · rw [R.oracle, R.oracleDefault, R.interrupted]; exact A.i1.quiet
+  have hinv : Inv c inst dom fx s2 := by
+    refine ⟨fixes_of_eq A.i1.fixes R.oracle R.oracleDefault R.interrupted, ?_, ?_, ?_, ?_, ?_, ?_, ?_, ?_, ?_, ?_, ?_, ?_⟩
+    · intro i n hn ha
+      rw [R.interrupted]
+      cases hnode hn with
+      | inl h => exact A.i1.amb i n (A.g0 h.2) ha
+      | inr h =>
+        rw [h.2] at ha
+        have e : cur = .ambig := ha
+        have hf := A.fact
+        rw [e] at hf
+        exact hf.ambig
     · exact fun k v h => A.i1.cacheOK k v (R.inCache.mp h)
     · intro e he
       obtain ⟨i, hi⟩ := List.getElem?_of_mem he
@@ -110,7 +119,13 @@ theorem After.restart (A : After c inst dom s0 st s1 g old cur m new) {s2 : St} 
         exact J.mono (fun j hj => hj.from0 ⟨_, hg2⟩ hflag) (A.L.i0.just i n h.2 hd htop)
       | inr h => rw [h.2] at hd; cases hd
   refine ⟨A.L.i0, A.L.u0, A.L.gdom, hinv, ⟨cur, hg2⟩, hlen2, hsext,
-    fun k v h => R.inCache.mpr (A.cacheExt k v h), ?_, by rw [R.cache, A.step.cacheMode, A.L.cacheMode]⟩
+    fun k v h => R.inCache.mpr (A.cacheExt k v h), ?_, by rw [R.cache, A.step.cacheMode, A.L.cacheMode],
+    fun e => by rw [R.interrupted]; exact A.step.intr (A.L.intr e),
+    fun q => by
+      obtain ⟨q1, i1⟩ := A.L.quiet q
+      obtain ⟨q2, i2⟩ := A.step.quiet q1
+      exact ⟨⟨by rw [R.oracle]; exact q2.1, by rw [R.oracleDefault]; exact q2.2⟩,
+        fun e => by rw [R.interrupted]; exact i2 (i1 e)⟩⟩
   intro k hu hd
   apply loop_low A.L A.i1 A.step A.fact k hu
   cases hd with
